@@ -45,6 +45,14 @@ class Stream:
     def norm_model(self, op, model):
         return model
 
+    def verdict_predicate(self, op, impl, model, cov):
+        """for ops where the driver's answer is a VERDICT about the implementation's recorded output (a linearization
+        search over a recorded concurrent history, trace validation of an observed schedule): called on a model/impl
+        disagreement; a negative verdict that by itself shows the property failing on that recorded output is returned
+        as a failure (str or dict(what, signature)) and reported with the recorded history as the concrete input.
+        `cov` = statistics of the streams run so far (to require e.g. that the sequential stream agreed)."""
+        return None
+
     def signature(self, failure):
         """structural signature of a (shrunk) failing case, matched against known_findings.json"""
         return None
@@ -224,6 +232,14 @@ def run_check(chk, tier, seed, replay=None):
         samples += [dict(s, stream=sname) for s in sample_cases(d["ops"], d["impl"], 3)]
         for m in d["mismatches"][:50]:
             why = marker_predicate(m["impl"]) or st.predicate(m["op"], m["impl"])
+            if not why:
+                v = st.verdict_predicate(m["op"], m["impl"], m["model"], cov_streams)
+                if v:
+                    c = {"stream": sname, "input": {"op": m["op"], "impl": m["impl"], "model_verdict": m["model"],
+                                                    "prefix": m["prefix"][-12:]}}
+                    c.update(v if isinstance(v, dict) else {"what": v})
+                    concrete.append(c)
+                    why = v
             if not why:
                 broken.append({"kind": "correspondence", "stream": sname, "name": "model!=impl",
                                "case": m["case"], "op": m["op"], "impl": m["impl"], "model": m["model"],
